@@ -43,6 +43,9 @@ Has(i) == pool[i] # Null
 Free(k) == pool[k] = Null
 Small(h) == /\ h.den <= MaxVal
             /\ \A x \in 1..Len(h.freq) : h.freq[x] <= MaxVal /\ h.err2[x] <= MaxVal * 64
+\* (TLC's integers are 32-bit: the statistics' numerators are scaled together with the contents)
+SmallSt(h) == /\ h.st.w <= 2000000 /\ h.st.s1 <= 2000000 /\ h.st.s1 >= -2000000 /\ h.st.s2 <= 2000000
+              /\ \A x \in 1..Len(h.freq) : h.freq[x] <= 100000 /\ h.err2[x] <= 100000
 On(op) == op \in Ops
 
 KindDtype(kind) == CASE kind = "pyint" -> "i8" [] kind = "pyfloat" -> "f8" [] kind = "f4" -> "f4"
@@ -113,7 +116,8 @@ IAddRefused(i, j) ==
 ForeignRefused(i, what) ==
     /\ Live /\ On("ForeignRefused") /\ Has(i)
     /\ what \in {"add_array", "add_scalar", "iadd_array", "mul_array", "imul_array", "mul_hist", "imul_hist",
-                 "div_hist", "idiv_hist", "div_array", "rdiv_scalar", "sub_array"}
+                 "div_hist", "idiv_hist", "div_array", "rdiv_scalar", "sub_array",
+                 "mul_hist_free", "imul_hist_free", "div_hist_free", "idiv_hist_free", "rdiv_scalar_free"}
     /\ UNCHANGED <<pool, ghost>>
 
 (* k = i - j *)
@@ -185,7 +189,7 @@ DivZeroRefused(i) ==
 
 (* k = i.normalize(percent) / i.normalize(inplace=True, percent) *)
 Normalize(i, percent, inplace, k) ==
-    /\ Live /\ On("Normalize") /\ Has(i) /\ Total(pool[i]) > 0
+    /\ Live /\ On("Normalize") /\ Has(i) /\ Total(pool[i]) > 0 /\ SmallSt(pool[i])
     /\ (inplace => k = i) /\ (~inplace => Free(k))
     /\ Small(Normalized(pool[i], percent))
     /\ pool' = [pool EXCEPT ![k] = Normalized(pool[i], percent)]
@@ -352,7 +356,9 @@ Next ==
     \/ \E i, j \in Ids, free \in BOOLEAN : ISub(i, j, free)
     \/ \E i, j \in Ids : IAdd(i, j) \/ AddRefused(i, j) \/ IAddRefused(i, j) \/ ISubRefused(i, j)
     \/ \E i \in Ids, what \in {"add_array", "add_scalar", "iadd_array", "mul_array", "imul_array", "mul_hist", "imul_hist",
-                 "div_hist", "idiv_hist", "div_array", "rdiv_scalar", "sub_array"} : ForeignRefused(i, what)
+                 "div_hist", "idiv_hist", "div_array", "rdiv_scalar", "sub_array",
+                 \* a histogram times / over a histogram is no arithmetic at all: refused with free arithmetics on as well
+                 "mul_hist_free", "imul_hist_free", "div_hist_free", "idiv_hist_free", "rdiv_scalar_free"} : ForeignRefused(i, what)
     \/ \E i, k \in Ids, c \in Scalars, r \in BOOLEAN : Mul(i, c, k, r)
     \/ \E i, k \in Ids, c \in Scalars : Div(i, c, k)
     \/ \E i \in Ids, c \in Scalars : IMul(i, c) \/ IDiv(i, c)
